@@ -385,6 +385,9 @@ func main() {
 		Tests: false,
 		Env:   append(os.Environ(), "GOFLAGS=-mod=mod", "GOPROXY=off", "GOSUMDB=off", "GOTOOLCHAIN=local"),
 	}
+	if mf := os.Getenv("VERIF_MODFLAG"); mf != "" {
+		cfg.BuildFlags = []string{mf}
+	}
 	pkgs, err := packages.Load(cfg, pkgPatterns...)
 	if err != nil {
 		fail("load: %v", err)
